@@ -3,8 +3,10 @@ package rules
 import (
 	"fmt"
 	"go/ast"
+	"go/constant"
 	"go/token"
 	"go/types"
+	"sort"
 	"regexp"
 	"strings"
 
@@ -130,6 +132,8 @@ func runC03(c *Ctx) {
 	c.r0317(pk, fd)
 	c.r0319(pk, fd)
 	c.r0320(pk, fd)
+	c.r0321(pk, fd)
+	c.r0322(pk, fd)
 	// an attribute wrongly marked boolean loses its value: the table check of C17, restricted to the attribute traits
 	// an attribute value that holds code decodes to the same value only if the code was minified as the browser reads it
 	c.alsoUnder(map[string]string{"R11.9": "R03.16"}, nil, func() { c.r119() })
@@ -1531,4 +1535,208 @@ func (c *Ctx) r0320(pk *packages.Package, fd *ast.FuncDecl) {
 		return true
 	})
 	c.R.Floor(rule, "drops of a document tag", n, 1)
+}
+
+// R03.21: a ruby part's end tag is omitted only in front of a start tag that closes that part.
+func (c *Ctx) r0321(pk *packages.Package, fd *ast.FuncDecl) {
+	const rule = "R03.21"
+	c.R.Rule(rule, "HTML §13.2.6.4.7: the start tags rb and rtc close every open ruby part (rb, rt, rtc, rp), the start tags rt and rp generate implied end tags `except for rtc elements`. The condition under which html.(*Minifier).Minify omits the end tag of a ruby part is evaluated for all sixteen pairs (element, following start tag) with the hash constants as values: it may hold only where the following start tag closes the element (`<rtc>a</rtc><rt>b</rt>` without `</rtc>` is parsed with the rt inside the rtc)")
+	info := pk.TypesInfo
+	parts := []string{"Rb", "Rt", "Rtc", "Rp"}
+	val := map[string]int64{}
+	for _, p := range parts {
+		k, ok := pk.Types.Scope().Lookup(p).(*types.Const)
+		if !ok {
+			c.R.Unres(rule, "html hash constant "+p, c.pos(fd), "constant not found")
+			return
+		}
+		v, _ := constant.Int64Val(k.Val())
+		val[p] = v
+	}
+	mentionsAll := func(e ast.Expr) bool {
+		seen := map[string]bool{}
+		ast.Inspect(e, func(z ast.Node) bool {
+			if id, ok := z.(*ast.Ident); ok {
+				if _, isK := info.Uses[id].(*types.Const); isK {
+					seen[id.Name] = true
+				}
+			}
+			return true
+		})
+		for _, p := range parts {
+			if !seen[p] {
+				return false
+			}
+		}
+		return true
+	}
+	hashOperand := func(e ast.Expr) string {
+		out := ""
+		ast.Inspect(e, func(z ast.Node) bool {
+			if be, ok := z.(*ast.BinaryExpr); ok && (be.Op == token.EQL || be.Op == token.NEQ) {
+				if sel, ok := ast.Unparen(be.X).(*ast.SelectorExpr); ok && sel.Sel.Name == "Hash" && out == "" {
+					out = nospace(str(sel.X))
+				}
+			}
+			return true
+		})
+		return out
+	}
+	n := 0
+	ast.Inspect(fd.Body, func(x ast.Node) bool {
+		outer, ok := x.(*ast.IfStmt)
+		if !ok || !mentionsAll(outer.Cond) {
+			return true
+		}
+		// the inner if that sets the omission flag
+		var inner *ast.IfStmt
+		ast.Inspect(outer.Body, func(z ast.Node) bool {
+			ifs, ok := z.(*ast.IfStmt)
+			if !ok || inner != nil {
+				return true
+			}
+			for _, st := range ifs.Body.List {
+				if as, ok := st.(*ast.AssignStmt); ok && len(as.Rhs) == 1 && nospace(str(as.Rhs[0])) == "true" {
+					inner = ifs
+				}
+			}
+			return true
+		})
+		if inner == nil {
+			return true
+		}
+		n++
+		tok, next := hashOperand(outer.Cond), hashOperand(inner.Cond)
+		if tok == "" || next == "" || tok == next {
+			c.R.Unres(rule, "html.Minifier.Minify/ruby end tag omission", c.pos(outer), "the element and the following token could not be told apart in the conditions")
+			return false
+		}
+		var startTag int64 = -1
+		ast.Inspect(inner.Cond, func(z ast.Node) bool {
+			if sel, ok := z.(*ast.SelectorExpr); ok && sel.Sel.Name == "StartTagToken" {
+				if v, isK := intConst(info, sel); isK {
+					startTag = v
+				}
+			}
+			return true
+		})
+		if startTag < 0 {
+			c.R.Unres(rule, "html.Minifier.Minify/ruby end tag omission", c.pos(inner), "no test for a following start tag")
+			return false
+		}
+		var bad []string
+		for _, el := range parts {
+			for _, nx := range parts {
+				env := map[string]int64{tok + ".Hash": val[el], next + ".Hash": val[nx], next + ".TokenType": startTag}
+				vo, ok1 := evalIntExpr(info, outer.Cond, env)
+				vi, ok2 := evalIntExpr(info, inner.Cond, env)
+				if !ok1 || !ok2 {
+					c.R.Unres(rule, "html.Minifier.Minify/ruby end tag omission", c.pos(inner), "the conditions could not be evaluated for "+el+" followed by "+nx)
+					return false
+				}
+				if vo != 0 && vi != 0 && !ref.HTMLRubyClosers[strings.ToLower(nx)][strings.ToLower(el)] {
+					bad = append(bad, "</"+strings.ToLower(el)+"> in front of <"+strings.ToLower(nx)+">")
+				}
+			}
+		}
+		c.R.Check(len(bad) == 0, rule, "html.Minifier.Minify/ruby end tag omitted only in front of a start tag that closes the element", c.pos(inner), "16 pairs evaluated",
+			"the end tag is omitted although the start tag that follows does not close the element ("+strings.Join(bad, ", ")+"): `<ruby>x<rtc>a</rtc><rt>b</rt></ruby>` → `<ruby>x<rtc>a<rt>b</ruby>`, in which the rt is a child of the rtc")
+		return false
+	})
+	c.R.Floor(rule, "ruby end tag omissions", n, 1)
+}
+
+// R03.22: state about an open part of a table is kept per table.
+func (c *Ctx) r0322(pk *packages.Package, fd *ast.FuncDecl) {
+	const rule = "R03.22"
+	c.R.Rule(rule, "tables nest: a cell may hold a whole table. A boolean of html.(*Minifier).Minify that is set on the start tag of an element that can have a table among its descendants (thead, tbody, tfoot, tr, td, th, caption) and cleared on a table tag describes the innermost table only for as long as no nested table begins or ends — its `</table>` clears what the outer table still needs (a seeded feature omitted `<tbody>` after `…<table>…</table></th></tr></thead>` and the body rows were parsed into the thead). No such boolean exists; state of that kind needs a level per table (inColgroup is set on colgroup, whose content model is col only)")
+	info := pk.TypesInfo
+	g := c.graph(pk, fd)
+	mayHoldTable := map[string]bool{"Thead": true, "Tbody": true, "Tfoot": true, "Tr": true, "Td": true, "Th": true, "Caption": true}
+	hashesIn := func(e ast.Node) map[string]bool {
+		out := map[string]bool{}
+		ast.Inspect(e, func(z ast.Node) bool {
+			if id, ok := z.(*ast.Ident); ok {
+				if _, isK := info.Uses[id].(*types.Const); isK {
+					out[id.Name] = true
+				}
+			}
+			return true
+		})
+		return out
+	}
+	type use struct {
+		clearedOnTable []string
+		setOn          map[string]bool
+	}
+	flags := map[types.Object]*use{}
+	for _, y := range g.Nodes {
+		as, ok := y.Stmt.(*ast.AssignStmt)
+		if !ok || y.Kind != flow.KStmt || len(as.Lhs) != 1 || len(as.Rhs) != 1 || as.Tok != token.ASSIGN {
+			continue
+		}
+		id, ok := as.Lhs[0].(*ast.Ident)
+		if !ok {
+			continue
+		}
+		o, ok := info.Uses[id].(*types.Var)
+		if !ok || !isBoolType(o.Type()) || o.Parent() == pk.Types.Scope() {
+			continue
+		}
+		u := flags[o]
+		if u == nil {
+			u = &use{setOn: map[string]bool{}}
+			flags[o] = u
+		}
+		under := map[string]bool{}
+		for _, f := range g.DomFacts(y) {
+			if f.Value && f.Test.Kind == flow.KCond {
+				for h := range hashesIn(f.Test.Expr) {
+					under[h] = true
+				}
+			}
+		}
+		// a disjunction of elements gives no single dominating outcome: the conditions of the if statements in whose
+		// then-branch the assignment stands
+		for x := c.P.Parent(as); x != nil; x = c.P.Parent(x) {
+			if ifs, ok := x.(*ast.IfStmt); ok && ifs.Body.Pos() <= as.Pos() && as.End() <= ifs.Body.End() {
+				for h := range hashesIn(ifs.Cond) {
+					under[h] = true
+				}
+			}
+			if _, ok := x.(*ast.CaseClause); ok {
+				break
+			}
+		}
+		rhs := nospace(str(as.Rhs[0]))
+		if rhs == "false" && under["Table"] {
+			u.clearedOnTable = append(u.clearedOnTable, c.pos(as))
+		} else if rhs != "false" {
+			for h := range under {
+				if mayHoldTable[h] {
+					u.setOn[h] = true
+				}
+			}
+		}
+	}
+	n := 0
+	var bad []string
+	for o, u := range flags {
+		if len(u.clearedOnTable) == 0 {
+			continue
+		}
+		n++
+		if len(u.setOn) > 0 {
+			var on []string
+			for h := range u.setOn {
+				on = append(on, strings.ToLower(h))
+			}
+			sort.Strings(on)
+			bad = append(bad, fmt.Sprintf("%s (set on %s, cleared on a table tag at %s)", o.Name(), strings.Join(on, "/"), strings.Join(u.clearedOnTable, ", ")))
+		}
+	}
+	sort.Strings(bad)
+	c.R.Check(len(bad) == 0, rule, "html.Minifier.Minify/state of an open table part is not a single boolean", c.pos(fd), fmt.Sprintf("%d booleans are cleared on a table tag, none is set on an element that can hold a table", n),
+		"a boolean records an open part of a table across tokens and is cleared by any table tag: "+strings.Join(bad, "; ")+" — the end tag of a table nested in a cell clears what the outer table still needs, and a decision that reads it (an omitted `<tbody>`) is taken for the wrong table")
+	c.R.Floor(rule, "booleans cleared on a table tag", n, 1)
 }
